@@ -34,16 +34,28 @@ RLP_HARNESSES = [
 RLP_PROPS = ('C02', 'C04', 'C07', 'C13', 'C14')
 
 
-def run_rlp_conformance(timeout=900):
+B64_HARNESSES = [
+    ('vp_kani_b64::decode_conforms', 'URL_SAFE_NO_PAD decoding accepts exactly the strict unpadded URL-safe texts (alphabet only, no length 1 mod 4, unused trailing bits zero) and yields the reference bytes, on every byte string of <= 7 bytes'),
+    ('vp_kani_b64::encode_conforms', 'URL_SAFE_NO_PAD encoding equals the reference encoder on every input of <= 5 bytes'),
+]
+B64_PROPS = ('C04', 'C12')
+
+
+def run_b64_conformance(timeout=900):
+    return run_rlp_conformance(timeout, harness_file='b64_conformance.rs', harnesses=B64_HARNESSES)
+
+
+def run_rlp_conformance(timeout=900, harness_file='rlp_conformance.rs', harnesses=None):
+    harnesses = harnesses or RLP_HARNESSES
     d = scratch_copy()
     out = []
     try:
         p = os.path.join(d, 'src', 'lib.rs')
-        open(p, 'a').write(open(os.path.join(D.VERIF, 'kani', 'rlp_conformance.rs')).read())
+        open(p, 'a').write(open(os.path.join(D.VERIF, 'kani', harness_file)).read())
         env = dict(os.environ)
         env['CARGO_NET_OFFLINE'] = 'true'
         env['CARGO_TARGET_DIR'] = os.path.join(d, 'target')
-        for h, what in RLP_HARNESSES:
+        for h, what in harnesses:
             cmd = ['cargo', 'kani', '--harness', h]
             t0 = time.time()
             try:
